@@ -169,6 +169,7 @@ class HistorySystem(System):
 SX_DOCS = {
     "figure-md": ":::{figure-md}\n<img src=\"x.png\" alt=\"a\">\n\ncap\n:::\n",
     "raw-img": "text <img src=\"y.png\" alt=\"b\"> and\n\n<img src=\"z.png\">\n",
+    "fm-figure-md": "---\nmyst:\n  heading_anchors: 2\n---\n# F\n\n:::{figure-md}\n<img src=\"x.png\" alt=\"a\">\n\ncap\n:::\n",
     "fm-ext": "---\nmyst:\n  enable_extensions: [deflist, html_image]\n  substitutions: {k: local}\n  heading_anchors: 3\n---\n# T\n\nTerm\n: def\n\n<img src=\"q.png\">\n\n{{k}}\n\n### deep\n",
     "plain": "# T\n\nTerm\n: def\n\n{{k}} $x$\n\n### deep\n\n[](#deep)\n",
     "include": "# I\n\n```{include} inc.txt\n:heading-offset: 1\n```\n",
